@@ -785,4 +785,4 @@ def calibrate(ctx) -> None:
 
 def parts(ctx):
     run = functools.partial(_run, ctx.work)
-    return [HypPart("image", _case(ctx.tier == "thorough"), run, {"quick": 640, "thorough": 16000})]
+    return [HypPart("image", _case(ctx.tier == "thorough"), run, {"quick": 480, "thorough": 16000})]
